@@ -229,6 +229,72 @@ theorem nested_duration_eq_flat (m : Merged2 ℚ) (hne : m.parts ≠ [])
           have hqe : q = Merged.mk (a :: as) := by cases q; simp_all
           rw [hqe]; exact this
 
+theorem nested_repeat_max (p : Merged ℚ) (ps : List (Merged ℚ)) :
+    (∀ q ∈ p :: ps, rankLe (repeatRank q.repeat_) (repeatRank (Merged2.mk (p :: ps)).repeat_)) ∧
+    ∃ q ∈ p :: ps, (Merged2.mk (p :: ps)).repeat_ = q.repeat_ := by
+  simp only [Merged2.repeat_, List.map_cons]
+  obtain ⟨h1, h2⟩ := foldl_repeat_max (ps.map (·.repeat_)) p.repeat_
+  constructor
+  · intro t ht
+    apply h1
+    rcases List.mem_cons.1 ht with rfl | ht
+    · simp
+    · simp only [List.mem_cons, List.mem_map]; right; exact ⟨t, ht, rfl⟩
+  · rcases List.mem_cons.1 h2 with h | h
+    · exact ⟨p, by simp, h⟩
+    · obtain ⟨t, ht, hte⟩ := List.mem_map.1 h
+      exact ⟨t, by simp [ht], hte.symm⟩
+
+theorem rankLe_trans {a b c : Nat × Nat} (h1 : rankLe a b) (h2 : rankLe b c) : rankLe a c := by
+  unfold rankLe at *; omega
+
+theorem rankLe_antisymm {a b : Nat × Nat} (h1 : rankLe a b) (h2 : rankLe b a) : a = b := by
+  unfold rankLe at *
+  obtain ⟨a1, a2⟩ := a; obtain ⟨b1, b2⟩ := b
+  simp only [Prod.mk.injEq] at *
+  omega
+
+/-- **repeat of a merge of merges ranks with that of the flat merge** (Infinite above every count, then by count;
+`None` and `Times(0)` rank together, as they compare equal in the code), when no part is empty -/
+theorem nested_repeat_rank_eq_flat (m : Merged2 ℚ) (hne : m.parts ≠ [])
+    (hparts : ∀ q ∈ m.parts, q.timelines ≠ []) : repeatRank m.repeat_ = repeatRank m.flatten.repeat_ := by
+  obtain ⟨parts⟩ := m
+  cases parts with
+  | nil => exact absurd rfl hne
+  | cons p ps =>
+    obtain ⟨hle, q0, hq0, heq⟩ := nested_repeat_max p ps
+    have hpne := hparts p (by simp)
+    cases hp : p.timelines with
+    | nil => exact absurd hp hpne
+    | cons t0 ts0 =>
+      have hflat : (Merged2.mk (p :: ps)).flatten.timelines = t0 :: (ts0 ++ ps.flatMap (·.timelines)) := by
+        simp [Merged2.flatten, hp]
+      obtain ⟨fle, ft, hft, feq⟩ := merged_repeat_max t0 (ts0 ++ ps.flatMap (·.timelines))
+      have hflat' : (Merged2.mk (p :: ps)).flatten = Merged.mk (t0 :: (ts0 ++ ps.flatMap (·.timelines))) := by
+        cases hm : (Merged2.mk (p :: ps)).flatten; simp_all
+      rw [hflat']
+      apply rankLe_antisymm
+      · rw [heq]
+        cases hqt : q0.timelines with
+        | nil => exact absurd hqt (hparts q0 hq0)
+        | cons a as =>
+          obtain ⟨_, l, hl, hle2⟩ := merged_repeat_max a as
+          have hqe : q0 = Merged.mk (a :: as) := by cases q0; simp_all
+          rw [hqe, hle2]
+          apply fle
+          rw [← hflat]
+          simp only [Merged2.flatten, List.mem_flatMap]
+          exact ⟨q0, hq0, by rw [hqt]; exact hl⟩
+      · rw [feq]
+        obtain ⟨q, hq, htq⟩ := leaf_part (Merged2.mk (p :: ps)) ft (by rw [hflat]; exact hft)
+        refine rankLe_trans ?_ (hle q hq)
+        cases hqt : q.timelines with
+        | nil => rw [hqt] at htq; simp at htq
+        | cons a as =>
+          have := (merged_repeat_max a as).1 ft (by rw [← hqt]; exact htq)
+          have hqe : q = Merged.mk (a :: as) := by cases q; simp_all
+          rw [hqe]; exact this
+
 /-- the hypothesis is needed: an empty part reports delay 0 -/
 example : ∃ m : Merged2 ℚ, m.parts ≠ [] ∧ m.delay ≠ m.flatten.delay := by
   refine ⟨⟨[⟨[]⟩, ⟨[⟨[], ⟨1, 1, .none, false⟩, []⟩]⟩]⟩, by simp, ?_⟩
